@@ -109,6 +109,33 @@ def trace_nontrivial(trace, matches, adapters):
     return False
 
 
+def documented_required(d):
+    """(front_required, back_required) of a linked adapter definition as documented: an explicit ;required or
+    ;optional decides; otherwise both parts are required with -g, and with -a exactly the anchored parts."""
+    front, back = d["spec"].split("=", 1)[1].split("...")
+    res = []
+    for text, anchored in ((front, front.startswith("^")), (back, "$" in back)):
+        if ";required" in text:
+            res.append(True)
+        elif ";optional" in text:
+            res.append(False)
+        else:
+            res.append(True if d["opt"].lower() == "-g" else anchored)
+    return tuple(res)
+
+
+def check_required_flags(case, adapters, ctx):
+    for d, a in zip(case["ad"], adapters):
+        if d["kind"] != "linked":
+            continue
+        got, exp = (a.front_required, a.back_required), documented_required(d)
+        if ";optional" in d["spec"] or ";required" in d["spec"]:
+            ctx.label("linked:explicit-required/optional")
+        if got != exp:
+            raise Violation(f"linked adapter {d['opt']} {d['spec']!r}: (5' part required, 3' part required) = {got}, "
+                            f"documented: {exp}", observed=list(got), expected=list(exp))
+
+
 def check_api(case, ctx):
     from cutadapt.modifiers import AdapterCutter, ModificationInfo
     from dnaio import SequenceRecord
@@ -118,6 +145,7 @@ def check_api(case, ctx):
     except (ValueError, KeyError):
         ctx.excluded += 1
         return
+    check_required_flags(case, adapters, ctx)
     action, times = case["action"], case["times"]
     cutter = AdapterCutter(adapters, times, None if action == "none" else action, index=False)
     ctx.label("action:" + action)
